@@ -1,7 +1,7 @@
 #!/bin/sh
 # confirm_seeded.sh PROP : for every /tmp/wt_PROP/_seeded/<name>/ confirm (clean demo passes, patch applies,
 # suite still 132 passed, demo fails with the patch, demo passes again after reverting) and print one line each.
-P=$1; WT=/tmp/wt_$P
+P=$1; WT=${WT_PREFIX:-/tmp/wt_}$P
 cd $WT || exit 2
 for d in $WT/_seeded/*/; do
   n=$(basename $d)
